@@ -5,13 +5,14 @@ import numpy
 import pandas
 
 FORMULAS = ["a + b", "a:b + c", "`x y` + a", "log(a) + b", "np.log(a) + I(b*c)", "{a + b} + c", "C(A) + a", "center(a):b", "poly(a, 2) + `x y`:c",
-            "y ~ a + b", "scale(a, center=False) ~ b | c", "a + f(b, g(c))", "{a + `x y`}", "bs(a, df=3) + A:b", "y ~ . - a"]
+            "y ~ a + b", "scale(a, center=False) ~ b | c", "a + f(b, g(c))", "{a + `x y`}", "bs(a, df=3) + A:b", "y ~ . - a",
+            "I(np.log(a) - np.log(b))", "np.log(np.log(c + 10) + 10)", "f(a, v=b)", "np.where(a > 2, a, b)", "y ~ a.clip(0, b)", "np.log(`x.1`) + a", "{b[0] + a}"]
 
 
 def frame():
     return pandas.DataFrame({
         "a": [1.0, 2.0, 3.5, 4.0, 6.0], "b": [2.0, 1.0, 5.0, 3.0, 0.5], "c": [0.5, 0.25, 4.0, 1.0, 2.0], "y": [1.0, 0.0, 1.0, 1.0, 0.0],
-        "A": pandas.Categorical(["u", "v", "u", "w", "v"]), "x y": [3.0, 1.0, 2.0, 5.0, 4.0],
+        "A": pandas.Categorical(["u", "v", "u", "w", "v"]), "x y": [3.0, 1.0, 2.0, 5.0, 4.0], "x.1": [1.5, 2.5, 3.5, 4.5, 5.5],
     })
 
 
